@@ -129,28 +129,15 @@ Theorem replace_mixed_texts : forall vars segs,
 Proof. exact replace_mixed. Qed.
 Print Assumptions replace_mixed_texts.
 
-(* text form, PARTIAL: line level.  An entry line `key<pad to 30> = value` as written by entry_as_str is read back
-   by the configparser model as option key (lower-cased unless case-sensitive) with exactly that value, a header line
-   `[section]` opens that section, and a one-line value is stored unchanged.  Not proved: that textwrap.fill leaves
-   lines that fit unchanged, and the fold of these steps over a whole file (both are covered by the
-   correspondence check only). *)
-Theorem text_roundtrip_partial :
-  (forall (cs : bool) (st : rstate) (k v sn : string) opts,
-     key_ok k -> value_ok v -> r_sect st = Some sn -> sget sn (r_done st) = Some opts ->
-     let k' := if cs then k else lower k in
-     smem k' opts = false ->
-     read_line cs (Ok st) (plain_line k v) =
-     Ok (RState (sset (r_done st) sn (opts ++ [(k', Some [v])])%list) (Some sn) (Some k') 0)) /\
-  (forall v, value_ok v -> joined_value [v] = v) /\
-  (forall cs st sn,
-     sn <> EmptyString -> has_char "]"%char sn = false ->
-     is_space (match sn with String a _ => a | _ => sp end) = false ->
-     smem sn (r_done st) = false ->
-     exists ind, read_line cs (Ok st) ("[" ++ sn ++ "]") = Ok (RState (r_done st ++ [(sn, [])])%list (Some sn) None ind)).
-Proof.
-  split; [exact read_entry_line|]. split; [exact joined_single|exact read_header_line].
-Qed.
-Print Assumptions text_roundtrip_partial.
+(* greedy wrapping: a text `P ++ " w1 w2 ... wn"` whose part P fits on the first line is wrapped by the model of
+   textwrap.fill (break_long_words=False, break_on_hyphens=False, hanging indent 33) into a first line P followed by
+   some of the words and lines of 33 blanks followed by a non-empty group of words; the groups are the words in order *)
+Theorem wrap_partitions_words : forall w P ws,
+  ends_nonblank P = true -> String.length P <= w -> Forall word_ok ws ->
+  exists g0 groups, wlines w (P ++ tailtext ws) = (P ++ tailtext g0) :: map (line_of (key_width + 3)) groups /\
+                    (g0 ++ List.concat groups)%list = ws /\ Forall (fun g => g <> []) groups.
+Proof. exact wlines_words. Qed.
+Print Assumptions wrap_partitions_words.
 
 (* textwrap.fill (break_long_words=False, break_on_hyphens=False) leaves a line that fits unchanged: any text that
    does not end in a blank and is not longer than the width *)
@@ -165,12 +152,17 @@ Print Assumptions fill_fits_unchanged.
      - section names: non-empty, no "]", no line break, no "__", not starting with a blank; pairwise different;
      - sections non-empty, keys pairwise different; a key is non-empty, has no "=", ":" or line break, no trailing
        whitespace, does not start with "[", "#", ";" or whitespace, and is lower case unless case-sensitive;
-     - values: empty, or without leading/trailing whitespace and line breaks (may contain "=", "{var}", blanks, ...);
+     - a value (`val_cond`) either FITS: it is empty or has no leading/trailing whitespace and no line break, and the
+       line `key<pad 30> = value` is not longer than the width (it may then contain anything else, also several
+       blanks in a row); or it is WRAPPED: a non-empty sequence of words separated by single blanks (a word: non-empty,
+       no whitespace, not starting with "#" or ";" - configparser drops a continuation line that starts with one
+       of them) of any length, and only `key<pad 30> =` has to fit on the first line;
      - metadata: names pairwise different per entry, non-empty, no "=", no line break, no trailing whitespace, lower case
-       unless case-sensitive; a metadata value is absent (line `key:meta`) or like a value (line `key:meta = value`)
-       (that the option names key / key:meta of a section are then pairwise different is proved, not assumed);
-     - every written line (`key<pad 30> = value`, `key:meta<pad> = value`, `key:meta`) fits the width (no wrapping).
-   What stays out (see text_roundtrip_partial): wrapped lines. *)
+       unless case-sensitive; a metadata value is absent (line `key:meta`, which must fit) or a value as above for
+       the key `key:meta` (that the option names key / key:meta of a section are then pairwise different is proved,
+       not assumed).
+   Outside: values that do not fit and contain two blanks in a row or other whitespace (textwrap drops the blanks
+   at a line break), words starting with "#" or ";" in a wrapped value, keys longer than the line. *)
 Theorem text_roundtrip : forall (cs : bool) (w : nat) (c : config),
   view_ok cs w (c_view c) ->
   answer all_off c (QReadBack w cs) = AContent (Ok (view_content (c_view c))).
@@ -280,6 +272,7 @@ Proof.
   - repeat constructor; simpl; intuition discriminate.
   - repeat match goal with
            | |- wval_ok _ => first [left; reflexivity|right]
+           | |- val_cond _ _ _ => left
            | |- _ => constructor
            end; simpl; try (intuition discriminate); try discriminate; try reflexivity; try lia.
 Qed.
@@ -293,9 +286,51 @@ Proof.
   - repeat constructor; simpl; intuition discriminate.
   - repeat match goal with
            | |- wval_ok _ => first [left; reflexivity|right]
+           | |- val_cond _ _ _ => left
            | |- _ => constructor
            end; simpl; try (intuition discriminate); try discriminate; try reflexivity; try lia.
 Qed.
+
+(* a value of 12 words at width 50: wrapped over several lines *)
+Example view_ok_wrapped_example :
+  view_ok true 50 (c_view (run all_off [OUpdate (Upd "sa" "stations"
+                                                   "ny-alesund-01 ny-alesund-02 ny-alesund-03 ny-alesund-04 zimm 2020-01-01/2020-12-31"
+                                                   None "s" [("help", Some "the stations that are used in the analysis of this session")]) true]
+                                       (empty_config "c"))).
+Proof.
+  vm_compute c_view. split; [repeat constructor; simpl; intuition discriminate|].
+  constructor; [|constructor]. split; [repeat split; discriminate || reflexivity|].
+  split; [discriminate|]. split; [repeat constructor; simpl; intuition discriminate|].
+  constructor; [|constructor]. cbn [fst snd e_key e_val e_meta].
+  split; [reflexivity|]. split; [repeat split; discriminate || reflexivity|]. split; [reflexivity|]. split; [reflexivity|].
+  split; [reflexivity|]. split.
+  - right. exists ["ny-alesund-01"; "ny-alesund-02"; "ny-alesund-03"; "ny-alesund-04"; "zimm"; "2020-01-01/2020-12-31"].
+    split; [discriminate|]. split; [repeat constructor; discriminate || reflexivity|]. split; [reflexivity|simpl; lia].
+  - split; [repeat constructor; simpl; intuition discriminate|]. constructor; [|constructor].
+    split; [repeat split; discriminate || reflexivity|]. split; [reflexivity|]. cbn [fst snd].
+    right. exists ["the"; "stations"; "that"; "are"; "used"; "in"; "the"; "analysis"; "of"; "this"; "session"].
+    split; [discriminate|]. split; [repeat constructor; discriminate || reflexivity|]. split; [reflexivity|simpl; lia].
+Qed.
+
+Example roundtrip_wrapped_example :
+  let c := run all_off [OUpdate (Upd "sa" "stations"
+                                     "ny-alesund-01 ny-alesund-02 ny-alesund-03 ny-alesund-04 zimm 2020-01-01/2020-12-31"
+                                     None "s" [("help", Some "the stations that are used in the analysis of this session")]) true]
+                       (empty_config "c") in
+  as_str 50 true c =
+  "[sa]
+stations                       = ny-alesund-01
+                                 ny-alesund-02
+                                 ny-alesund-03
+                                 ny-alesund-04
+                                 zimm
+                                 2020-01-01/2020-12-31
+stations:help                  = the stations that
+                                 are used in the
+                                 analysis of this
+                                 session
+".
+Proof. vm_compute. reflexivity. Qed.
 
 Example replace_mixed_example :
   let segs := [Lit "/data/"; Ref "yyyy" None; Lit "/"; Ref "station" (Some ">6"); Lit "-"; Ref "unknown" (Some "%Y");
